@@ -1,4 +1,5 @@
 import CpModel.Prim
+import CpModel.Codec
 import CpModel.Gen.Enums
 /-
   CpModel.Enum — coded enumerations on the wire.
@@ -109,5 +110,12 @@ def parseCodedArray (codes : List Nat) (k : Nat) (fallback : Bool) : Nat → Byt
 def parseIntEnum (memberCodes : List Nat) (k : Nat) (rest : Bytes) : Except PErr (Nat × Nat) := do
   let (c, n) ← parseNum .network k rest
   if memberCodes.contains c then pure (c, n) else .error .invalidValue
+
+/-- a strictly decoded coded-enumeration position as a codec (value = index of the member) -/
+def codedStrict (codes : List Nat) (k : Nat) : Codec Nat := ⟨parseCoded codes k, composeCoded codes k⟩
+
+/-- an `IntEnum`-converted numeric field as a codec (value = the member's number) -/
+def intEnum (members : List Nat) (k : Nat) : Codec Nat :=
+  ⟨parseIntEnum members k, fun v => composeNum .network k (v : Int)⟩
 
 end Cp
